@@ -3,8 +3,8 @@ import EaselModel.Buffer.TotalSetOffset
 namespace EaselModel.Buffer
 
 /-- **One step, contract or not**: from any state related to a specification state, any of the 14 operations that
-    respects the residual duties `SafeOp` yields one of the outcomes of `Total` and a related state again. -/
-theorem step_total (P : Nat) (op : Op) (a : AState) (s : Sess) (r : R P a s) (hs : SafeOp s op) : TStep P a s op := by
+    respects the residual duties `CallerOk` yields one of the outcomes of `Total` and a related state again. -/
+theorem step_total (P : Nat) (op : Op) (a : AState) (s : Sess) (r : R P a s) (hs : CallerOk s op) : TStep P a s op := by
   cases op with
   | getLine => exact TStep.of_sim (sim_getLine P a s r trivial)
   | fetchLine => exact TStep.of_sim (sim_fetchLine P a s r trivial)
@@ -22,16 +22,16 @@ theorem step_total (P : Nat) (op : Op) (a : AState) (s : Sess) (r : R P a s) (hs
   | raiseAnchor o => exact TStep.of_sim (sim_raiseAnchor P o a s r trivial)
 
 /-- a history that respects the residual duties at every step of the run of the model -/
-def SafeRun : Sess → List Op → Prop
+def CallerOkRun : Sess → List Op → Prop
   | _, [] => True
-  | s, op :: ops => SafeOp s op ∧ SafeRun (s.step op).2 ops
+  | s, op :: ops => CallerOk s op ∧ CallerOkRun (s.step op).2 ops
 
 /-- every step of the run is one of the outcomes of `Total`, threading the specification state -/
 def TotalRun : AState → Sess → List Op → Prop
   | _, _, [] => True
   | a, s, op :: ops => ∃ a', Total a op (obsOf op (s.step op).1 (s.step op).2) a' ∧ TotalRun a' (s.step op).2 ops
 
-theorem run_total (P : Nat) (ops : List Op) : ∀ (a : AState) (s : Sess), R P a s → SafeRun s ops → TotalRun a s ops := by
+theorem run_total (P : Nat) (ops : List Op) : ∀ (a : AState) (s : Sess), R P a s → CallerOkRun s ops → TotalRun a s ops := by
   induction ops with
   | nil => intro _ _ _ _; trivial
   | cons op ops ih =>
@@ -42,7 +42,7 @@ theorem run_total (P : Nat) (ops : List Op) : ∀ (a : AState) (s : Sess), R P a
 /-- **Every history of the 14 operations, no API contract**: on every opener, every page size ≥ 1 and every input,
     each step either simulates the specification or answers the documented `eslEINVAL` leaving the described state. -/
 theorem history_total (mode : Mode) (ps : Nat) (src : Bytes) (hps : 0 < ps) (ops : List Op)
-    (hs : SafeRun { b := openBuf mode ps src } ops) : TotalRun (AState.init src) { b := openBuf mode ps src } ops :=
+    (hs : CallerOkRun { b := openBuf mode ps src } ops) : TotalRun (AState.init src) { b := openBuf mode ps src } ops :=
   run_total ps ops _ _ (open_R mode ps src hps ps (Nat.le_refl _)) hs
 
 theorem totalRun_st (ops : List Op) : ∀ (a : AState) (s : Sess), TotalRun a s ops →
@@ -58,22 +58,33 @@ theorem totalRun_st (ops : List Op) : ∀ (a : AState) (s : Sess), TotalRun a s 
 
 /-- … and never faults: no out-of-bounds access, no cursor outside the window, no loop out of fuel, no internal error. -/
 theorem history_total_no_fault (mode : Mode) (ps : Nat) (src : Bytes) (hps : 0 < ps) (ops : List Op)
-    (hs : SafeRun { b := openBuf mode ps src } ops) :
+    (hs : CallerOkRun { b := openBuf mode ps src } ops) :
     ∀ o ∈ obsRun { b := openBuf mode ps src } ops, o.st = .ok ∨ o.st = .eof ∨ o.st = .eol ∨ o.st = .einval :=
   totalRun_st ops _ _ (history_total mode ps src hps ops hs)
 
-/-- executable `SafeRun` -/
-def safeRunB : Sess → List Op → Bool
+/-- executable `CallerOkRun` -/
+def callerOkRunB : Sess → List Op → Bool
   | _, [] => true
-  | s, op :: ops => safeB s op && safeRunB (s.step op).2 ops
+  | s, op :: ops => callerOkB s op && callerOkRunB (s.step op).2 ops
 
-theorem safeRunB_iff (ops : List Op) : ∀ s, safeRunB s ops = true ↔ SafeRun s ops := by
+theorem callerOkRunB_iff (ops : List Op) : ∀ s, callerOkRunB s ops = true ↔ CallerOkRun s ops := by
   induction ops with
-  | nil => intro s; simp [safeRunB, SafeRun]
-  | cons op ops ih => intro s; simp only [safeRunB, SafeRun, Bool.and_eq_true, safeB_iff, ih]
+  | nil => intro s; simp [callerOkRunB, CallerOkRun]
+  | cons op ops ih => intro s; simp only [callerOkRunB, CallerOkRun, Bool.and_eq_true, callerOkB_iff, ih]
+
+/-- a history without `Set` is inside `CallerOkRun` whatever its arguments -/
+theorem callerOkRun_of_no_set (ops : List Op) (h : ∀ op ∈ ops, ∀ k, op ≠ .set k) : ∀ s, CallerOkRun s ops := by
+  induction ops with
+  | nil => intro _; trivial
+  | cons op ops ih =>
+    intro s
+    refine ⟨?_, ih (fun o ho => h o (List.mem_cons_of_mem _ ho)) _⟩
+    cases op with
+    | set k => exact absurd rfl (h (.set k) (List.mem_cons_self) k)
+    | _ => trivial
 
 /-- inside the contract nothing more is asked: a valid operation is safe -/
-theorem valid_safe {P : Nat} {a : AState} {s : Sess} (r : R P a s) (op : Op) (hv : Valid P a op) : SafeOp s op := by
+theorem valid_safe {P : Nat} {a : AState} {s : Sess} (r : R P a s) (op : Op) (hv : Valid P a op) : CallerOk s op := by
   have hp := r.wf.hpos
   cases op with
   | set k =>
@@ -82,28 +93,9 @@ theorem valid_safe {P : Nat} {a : AState} {s : Sess} (r : R P a s) (op : Op) (hv
     have hv' : s.b.base + i + k ≤ a.cur + min P (a.src.length - a.cur) := hv _ hal
     have hld := r.loaded_ge
     have := r.cur; omega
-  | setOffset o =>
-    obtain ⟨hvend, hvalt⟩ : (o < a.src.length ∨ (o = a.src.length ∧ a.anchor ≠ none)) ∧
-      (a.cur ≤ o ∨ ∃ A, a.anchor = some A ∧ A ≤ o) := hv
-    intro x hx hb
-    · have hf : s.b.hasfp = true := by
-        cases hh : s.b.hasfp with
-        | true => rfl
-        | false => have := r.nfa hh; rw [hx] at this; cases this
-      obtain ⟨r1, _⟩ := r.anch hf
-      have hab : s.b.absAnchor = some (s.b.base + x) := by simp [Buf.absAnchor, hx]
-      rw [r1] at hab
-      rcases hvalt with h | ⟨A, hA, hle⟩
-      · have := (r.aanch _ hab).1; omega
-      · rw [hab] at hA; cases hA; exact hle
-  | setAnchor o =>
-    intro _
-    have h1 : o ≤ a.cur := hv.1
-    left; rw [r.cur]; exact h1
-  | setStableAnchor o =>
-    intro _
-    have h1 : o ≤ a.cur := hv.1
-    left; rw [r.cur]; exact h1
+  | setOffset o => trivial
+  | setAnchor o => trivial
+  | setStableAnchor o => trivial
   | getLine => trivial
   | fetchLine => trivial
   | fetchLineStr => trivial
